@@ -238,7 +238,7 @@ def check(ctx, replay=None):
         if e not in rust:
             continue
         goals.append(f"agree_rustc {cvs(vs)} {cz(rust[e])}"); meta.append(("rustc", e))
-        if rust[e] != discs(vs) and viol < 3:
+        if rust[e] != discs(vs) and len(ctx.violations) < 3:
             viol += 1
             ctx.violation("direct:rustc", {"enum": vs, "what": f"rustc numbers the variants {rust[e]}, the discriminant rule gives {discs(vs)}"}, True)
         for backend in sorted(obs):
@@ -246,13 +246,13 @@ def check(ctx, replay=None):
                 continue
             vals, back = obs[backend][e]
             goals.append(f"agree_backend {backend} {cvs(vs)} {cz(vals)} {cback(back)}"); meta.append((backend, e))
-            if (vals != rust[e] or back != list(range(len(vs)))) and viol < 3:
+            if (vals != rust[e] or back != list(range(len(vs)))) and len(ctx.violations) < 3:
                 viol += 1
                 ctx.violation("direct:" + backend, {"enum": vs, "backend": backend, "what":
                               f"{backend} numbers the variants {vals} (rustc: {rust[e]}); values received from Rust select variants {back} "
                               f"(expected {list(range(len(vs)))})"}, True)
     fails = run_shards(PROP, HEADER, goals) if goals else []
-    if fails and viol == 0:
+    if fails and not ctx.violations:
         for f in fails[:2]:
             ctx.violation("corr:" + meta[f][0], {"enum": enums[meta[f][1]], "broken": "correspondence goal " + goals[f][:300] +
                           " (Enums/Model.v no longer describes this backend); no variant with a wrong value was found"}, False)
